@@ -11,7 +11,12 @@ Cases: random operation sequences (<= 15 ops; thorough <= 25) over ONE master
 branch with its own working tree (M), a heavyweight checkout (H: own branch,
 bound) and a lightweight checkout (L: the branch is the master) with real 2a
 trees: commit in M / H / L, commit --local, update in each tree, pull from the
-master in H, unbind / bind of H.  Every commit adds a new file whose name is
+master in H, unbind / bind of H; plus an independent branch O (own repository
+and tree: commit in O, O pulls the master with overwrite), pull from O into H /
+L / M with stop_revision = every revision of O's left-hand line or none, with
+and without overwrite and local=True, and push of H's branch / the master into
+a third branch P.  Sequences are generated adaptively (stop revisions are read
+from the real branch O); fixed and corpus sequences run first.  Every commit adds a new file whose name is
 unique to the step, so tree merges never conflict (update and pull run real
 merges).
 
@@ -35,6 +40,16 @@ Oracle (independent of the model, after every step): P1 a successful commit in
     based on the (non-null) tip it commits to is refused; P7 local commits that
     update pivots out of the local branch stay referenced as a pending merge.
 
+Oracle P8: a successful non-local operation (commit, update, pull from the
+master, pull from O with any stop revision) in a bound checkout that was in
+step with its master leaves local tip == master tip; a pull with a stop
+revision moves tips only to that revision; master written before local.
+
+Finding on the unchanged code (family pull-into-bound-branch-master-moved-before-local-diverged):
+pull from another branch into a bound checkout that has local-only commits pulls
+the MASTER first and then raises DivergedBranches for the local branch - a refused
+operation that moved the master (model: pull_other_master_moved_witness).
+
 Finding on the unchanged code (family update-bound-to-empty-master-keeps-local-tip):
 update in a checkout bound to an EMPTY master after commit --local leaves the
 local tip ahead of the master (_update_revisions returns early for a null source
@@ -48,6 +63,8 @@ Mutants tried in a scratch worktree (the family above ignored):
  m5 _check_out_of_date_tree: null test applied to the tree parent        -> oracle P6 + T2
  m6 _update_tree: old tip not kept as pending merge                     -> oracle P7 + T2 (tree parents)
  harmless: _update_branches with the progress-stage calls removed        -> clean
+ seeded (coordinator): GenericInterBranch.pull does not pass stop_revision to the master pull
+                                                                        -> oracle P8 + stop-revision check + T2 (corpus 01, every seed)
 """
 import os
 import shutil
@@ -58,6 +75,8 @@ THEOREMS = [
     "bound_commit_master_first", "bound_commit_refused_noop", "local_commit_only_local", "master_commit_only_master",
     "update_equalises_partial", "update_empty_master_witness", "pull_equalises_or_refuses", "refused_noop",
     "run_master_first", "unbound_commit_only_local",
+    "bound_pull_other_same_revision", "pull_other_refused_local_unchanged", "pull_other_master_moved_witness",
+    "pull_other_local_only",
 ]
 RULE = ("case = operation sequence over (M, H, L), compared after every step; distinct by op list; non-trivial = at least "
         "one successful commit through the bound checkout and one of (refused commit, --local commit, update that moves a tip, pull)")
@@ -88,35 +107,54 @@ class World:
                 if t.path2id("") != b"root":
                     t.set_root_id(b"root")
         self.mbase = b.base
+        self.hbase = h.branch.base
+        # an independent branch O with its own repository and tree, and an empty third branch P (push target)
+        self.o = env.make_tree("2a")
+        self.o.set_root_id(b"root")
+        self.odir = self.o.basedir
+        self.pdir = env.fresh_dir("p")
+        from breezy.controldir import ControlDir, format_registry
+        ControlDir.create_branch_convenience(self.pdir, format=format_registry.make_controldir("2a"), force_new_tree=False)
         self.n = 0
         self.log = []
         self.hook_name = "c23-%d-%d" % (os.getpid(), id(self))
 
         def hook(params):
             if params.old_revid != params.new_revid:
-                self.log.append(("m" if params.branch.base == self.mbase else "h") + ":" + params.new_revid.decode())
+                base = params.branch.base
+                if base in (self.mbase, self.hbase):
+                    self.log.append(("m" if base == self.mbase else "h") + ":" + params.new_revid.decode())
         Branch.hooks.install_named_hook("post_change_branch_tip", hook, self.hook_name)
 
     def close(self):
         from breezy.branch import Branch
         Branch.hooks.uninstall_named_hook("post_change_branch_tip", self.hook_name)
-        for d in (self.mdir, self.hdir, self.ldir):
+        for d in (self.mdir, self.hdir, self.ldir, self.odir, self.pdir):
             shutil.rmtree(d, ignore_errors=True)
 
     def tree(self, who):
         from breezy.workingtree import WorkingTree
-        return WorkingTree.open({"M": self.mdir, "H": self.hdir, "L": self.ldir}[who])
+        return WorkingTree.open({"M": self.mdir, "H": self.hdir, "L": self.ldir, "O": self.odir}[who])
 
     def observe(self):
         from breezy.branch import Branch
         mb = Branch.open(self.mdir)
         hb = Branch.open(self.hdir)
         par = {}
-        for who in "MHL":
+        for who in "MHLO":
             par[who] = [p.decode() for p in self.tree(who).get_parent_ids()]
         mi, hi = mb.last_revision_info(), hb.last_revision_info()
         return dict(master=(mi[0], mi[1].decode()), local=(hi[0], hi[1].decode()),
-                    bound=hb.get_bound_location() is not None, parents=par)
+                    bound=hb.get_bound_location() is not None, parents=par,
+                    other=Branch.open(self.odir).last_revision().decode(), third=Branch.open(self.pdir).last_revision().decode())
+
+    def other_line(self):
+        """left-hand history of O, tip first"""
+        from breezy.branch import Branch
+        ob = Branch.open(self.odir)
+        with ob.lock_read():
+            g = ob.repository.get_graph()
+            return [r.decode() for r in g.iter_lefthand_ancestry(ob.last_revision(), [b"null:"])]
 
     def do(self, op):
         """returns the outcome string"""
@@ -138,6 +176,14 @@ class World:
                     wt = self.tree(who)
                     wt.remove([name], keep_files=False, force=True)
                     raise
+            elif k == "sO":
+                self.tree("O").pull(Branch.open(self.mdir), overwrite=True)
+            elif k in ("qH", "qL", "qM"):
+                _, rev, ow, lo = op.split(":")
+                self.tree(k[1]).pull(Branch.open(self.odir), overwrite=(ow == "T"), local=(lo == "T"),
+                                     stop_revision=None if rev == "~" else rev.encode())
+            elif k in ("shH", "shL"):
+                Branch.open(self.hdir if k == "shH" else self.mdir).push(Branch.open(self.pdir))
             elif k[0] == "u":
                 n = self.tree(k[1]).update()
                 if n:
@@ -158,21 +204,21 @@ class World:
 def show(out, ob, log):
     return "|".join([out, "%d:%s" % ob["master"], "%d:%s" % ob["local"], "T" if ob["bound"] else "F",
                      "+".join(ob["parents"]["M"]) or "-", "+".join(ob["parents"]["H"]) or "-",
-                     "+".join(ob["parents"]["L"]) or "-", "+".join(log) or "-"])
+                     "+".join(ob["parents"]["L"]) or "-", "+".join(log) or "-",
+                     ob["other"], "+".join(ob["parents"]["O"]) or "-", ob["third"]])
 
 
-def gen_ops(rng, n):
-    ops = []
-    r = 0
-    for _ in range(n):
-        k = rng.choices(["cH", "cM", "cL", "lH", "uH", "uM", "uL", "p", "x", "b", "lM"],
-                        [24, 12, 9, 10, 14, 8, 6, 8, 3, 4, 1])[0]
-        if k[0] in "cl":
-            r += 1
-            ops.append("%s:r%d" % (k, r))
-        else:
-            ops.append(k)
-    return ops
+def next_op(rng, w, r):
+    """one op drawn from the alphabet; stop revisions of pulls from O range over O's whole left-hand line"""
+    k = rng.choices(["cH", "cM", "cL", "lH", "uH", "uM", "uL", "p", "x", "b", "lM", "cO", "sO", "qH", "qL", "qM", "shH", "shL"],
+                    [22, 10, 8, 9, 13, 7, 5, 7, 3, 4, 1, 12, 6, 14, 4, 2, 3, 2])[0]
+    if k in ("cH", "cM", "cL", "lH", "lM", "cO"):
+        return "%s:r%d" % (k, r + 1), r + 1
+    if k in ("qH", "qL", "qM"):
+        line = w.other_line()
+        rev = rng.choice(line + ["~"]) if line else "~"
+        return "%s:%s:%s:%s" % (k, rev, "T" if rng.random() < 0.2 else "F", "T" if rng.random() < 0.15 else "F"), r
+    return k, r
 
 
 def is_anc(w, a, b):
@@ -186,13 +232,29 @@ def is_anc(w, a, b):
         return g.is_ancestor(a.encode(), b.encode())
 
 
-def run_sequence(ops):
-    """execute on real trees; returns (step strings, violations)"""
+def run_sequence(ops, seed=None, n=0):
+    """execute on real trees (ops given, or generated adaptively from `seed`); returns (ops, step strings, violations)"""
+    import random
     w = World()
     outs, viol = [], []
+    rng = random.Random(seed) if ops is None else None
+    given = ops
+    ops = [] if ops is None else list(ops)
+    r = 0
     try:
         ob = w.observe()
-        for idx, op in enumerate(ops):
+        idx = -1
+        while True:
+            idx += 1
+            if given is None:
+                if idx >= n:
+                    break
+                op, r = next_op(rng, w, r)
+                ops.append(op)
+            else:
+                if idx >= len(ops):
+                    break
+                op = ops[idx]
             before = ob
             local_ahead = diverged = None
             if op == "p":
@@ -213,11 +275,47 @@ def run_sequence(ops):
                 if (ob["master"], ob["local"], ob["bound"], ob["parents"]) != (
                         before["master"], before["local"], before["bound"], before["parents"]):
                     viol.append((tag + "%s but the state changed: %r -> %r" % (what, before, ob), None))
+            in_step = before["bound"] and before["master"] == before["local"]
             if out != "ok":
-                unchanged("refused with %s" % out)
-                if log:
-                    viol.append((tag + "refused with %s but tips were written: %r" % (out, log), None))
-            if k[0] in "cl":
+                if k == "qH" and out == "E:DivergedBranches" and before["bound"] and ob["master"] != before["master"] and (
+                        ob["local"], ob["bound"], ob["parents"]) == (before["local"], before["bound"], before["parents"]):
+                    viol.append((tag + "pull into the bound checkout raised DivergedBranches for the local branch after the master "
+                                 "had already been moved %r -> %r" % (before["master"], ob["master"]),
+                                 "pull-into-bound-branch-master-moved-before-local-diverged"))
+                else:
+                    unchanged("refused with %s" % out)
+                    if log:
+                        viol.append((tag + "refused with %s but tips were written: %r" % (out, log), None))
+            # P8: a successful non-local operation in a bound checkout that was in step leaves it in step
+            if out == "ok" and in_step and (k in ("cH", "uH", "p") or (k == "qH" and op.split(":")[3] == "F")):
+                if ob["local"] != ob["master"]:
+                    viol.append((tag + "checkout was in step with its master, afterwards master %r != local %r" % (
+                        ob["master"], ob["local"]), None))
+            if k == "qH" and out == "ok":
+                _, rev, ow, lo = op.split(":")
+                if lo == "T":
+                    if ob["master"] != before["master"]:
+                        viol.append((tag + "pull --local moved the master", None))
+                    if not before["bound"]:
+                        viol.append((tag + "pull --local succeeded in an unbound branch", None))
+                elif before["bound"]:
+                    mch, lch = ob["master"] != before["master"], ob["local"] != before["local"]
+                    if mch and lch and log != ["m:" + ob["master"][1], "h:" + ob["local"][1]]:
+                        viol.append((tag + "tip writes of the pull are %r, expected master then local" % (log,), None))
+                    if rev != "~":
+                        for nm in ("master", "local"):
+                            if ob[nm] != before[nm] and ob[nm][1] != rev:
+                                viol.append((tag + "pull with stop revision %s moved the %s tip to %s" % (rev, nm, ob[nm][1]), None))
+                else:
+                    if ob["master"] != before["master"]:
+                        viol.append((tag + "pull into the unbound branch moved the master", None))
+            if k in ("qL", "qM") and out == "ok":
+                rev = op.split(":")[1]
+                if ob["local"] != before["local"] or (rev != "~" and ob["master"] != before["master"] and ob["master"][1] != rev):
+                    viol.append((tag + "pull into the master: local %r -> %r, master %r" % (before["local"], ob["local"], ob["master"]), None))
+            if k in ("shH", "shL", "sO", "cO") and (ob["master"], ob["local"], ob["bound"]) != (before["master"], before["local"], before["bound"]):
+                viol.append((tag + "%s changed the master / checkout branches" % k, None))
+            if k[0] in "cl" and k[1] in "MHL":
                 # P6: a tree that is not based on the tip it commits to must be refused
                 who = k[1]
                 ref = before["master"] if (who in "ML" or (who == "H" and before["bound"] and k[0] == "c")) else before["local"]
@@ -285,16 +383,17 @@ def run_sequence(ops):
                     viol.append((tag + "bind/unbind: %s, state %r -> %r" % (out, before, ob), None))
     finally:
         w.close()
-    return outs, viol
+    return ops, outs, viol
 
 
-def worker(ops):
+def worker(job):
+    ops = job.get("ops")
     try:
-        outs, viol = run_sequence(ops)
+        ops, outs, viol = run_sequence(ops, job.get("seed"), job.get("n", 0))
         return dict(ops=ops, impl=";".join(outs), viol=viol)
     except Exception as e:
         import traceback
-        return dict(ops=ops, error="%s: %s\n%s" % (type(e).__name__, e, traceback.format_exc()[-1200:]))
+        return dict(ops=ops or [], error="%s: %s\n%s" % (type(e).__name__, e, traceback.format_exc()[-1200:]))
 
 
 FIXED = [
@@ -304,6 +403,10 @@ FIXED = [
     ["lH:r1", "uH", "cH:r2"],
     ["cH:r1", "x", "cH:r2", "lH:r3", "uM", "cM:r4", "b", "cH:r5", "uH", "cH:r6"],
     ["cM:r1", "uL", "cL:r2", "cM:r3", "uH", "x", "cH:r4", "p", "b", "uH", "cH:r5"],
+    # pull from a branch other than the master with an explicit stop revision (master first, same revision)
+    ["cM:r1", "uH", "sO", "cO:r2", "cO:r3", "cO:r4", "qH:r3:F:F", "cH:r5", "shH", "qL:~:F:F", "uH"],
+    ["cM:r1", "uH", "sO", "cO:r2", "cO:r3", "qH:r2:F:T", "qH:r3:F:F", "uH", "qH:r3:T:F", "cH:r4"],
+    ["cM:r1", "uH", "sO", "cO:r2", "lH:r3", "qH:~:F:F", "qH:r2:T:F", "x", "qH:~:T:F", "shL", "shH"],
 ]
 
 
@@ -322,6 +425,8 @@ def absorb(ctx, res):
     ctx.count("len:%d" % (5 * (len(ops) // 5)))
     for o, s in zip(ops, steps):
         ctx.count("op:%s:%s" % (o.split(":")[0], s.split("|")[0]))
+        if o[0] == "q":
+            ctx.count("pull-other:stop=%s:overwrite=%s:local=%s" % ("none" if o.split(":")[1] == "~" else "rev", o.split(":")[2], o.split(":")[3]))
     for what, fam in res["viol"]:
         ctx.violation(dict(ops=ops), what, family=fam)
     return "run " + (",".join(ops) or "-")
@@ -330,15 +435,15 @@ def absorb(ctx, res):
 def run(ctx):
     nseq = ctx.pick(60, 300)
     maxlen = ctx.pick(15, 25)
-    seqs = [list(f) for f in FIXED]
+    seqs = [dict(ops=list(f)) for f in FIXED]
     cdir = os.path.join(env.VERIF, "corpus", "C23")
     if os.path.isdir(cdir):
         import json
         for f in sorted(os.listdir(cdir)):
             if f.endswith(".json"):
-                seqs.append(json.load(open(os.path.join(cdir, f)))["ops"])
+                seqs.append(dict(ops=json.load(open(os.path.join(cdir, f)))["ops"]))
     for _ in range(nseq):
-        seqs.append(gen_ops(ctx.rng, ctx.rng.randrange(3, maxlen + 1)))
+        seqs.append(dict(seed=ctx.rng.randrange(1 << 30), n=ctx.rng.randrange(3, maxlen + 1)))
     results = ctx.pmap(worker, seqs, chunksize=1)
     lines, cases, impls = [], [], []
     for res in results:
@@ -358,7 +463,7 @@ def run(ctx):
 
 
 def replay(ctx, case):
-    res = worker(case["ops"])
+    res = worker(dict(ops=case["ops"]))
     if res.get("error"):
         return dict(case=case, error=res["error"])
     for what, fam in res["viol"]:
